@@ -27,12 +27,21 @@ RULE = ('all tables with 0..n rows: kind kv = key over K4 {None, i1, i2, s1} x v
         'rowreduce; rowgroupmap; fold (order-revealing, sum, whole rows); groupselectfirst/last/min/max; '
         'mergeduplicates (missing default / given); merge of every consecutive split, the interleaved split and a '
         'split with differing headers; groupcountdistinctvalues; valuecounts / valuecounter; rowgroupby. '
+        'x spelling of the key / value arguments (kinds kv2: key is column 0, vk: key is column 1, ck: compound; '
+        'ek: the key field is named ""): field name, field index, one-element list, one-element tuple, '
+        'one-element list of an index, list instead of tuple, all indices, index+name, name+index; value fields '
+        'by name / by index (thorough: full cross; quick: every key spelling and every value spelling, index '
+        'forms tied). Under an alternative spelling the output header may carry the index instead of the name and '
+        'a one-element key may come back bare or as a 1-tuple (neither is documented). '
         'x strategy: default, buffersize=1, buffersize=2, presorted=True (only on tables whose key column is '
         'already non-decreasing under the reference order). states = (table, form, strategy) points; a table is '
         'non-trivial when it has >= 2 distinct keys and some key occurs more than once. '
         'Excluded (no documented answer): key=None with a dict/list of specs on a header-only table; a callable '
         'key without presorted=True (sort() cannot take a callable); compound key for groupcountdistinctvalues; '
-        'rowgroupmap without header. For min/max any member with an extreme value is accepted (tie-break free).')
+        'rowgroupmap without header; mergeduplicates / merge with a key containing a field index (their output '
+        'fields are computed from the key field NAMES); groupcountdistinctvalues with a list / tuple key; source '
+        'fields by index inside a dict/list of aggregation specs (looked up by name). For min/max any member with '
+        'an extreme value is accepted (tie-break free).')
 ASSUMPTIONS = ['tables have <= 4 rows; one or two representatives per key type class',
                'reducers / mappers / fold functions are pure and only index the rows they are given',
                'key equality is ==-equivalence (1 and 1.0 form one group); order is the documented None < numbers < rest']
@@ -43,21 +52,38 @@ ASSUMPTIONS = ['tables have <= 4 rows; one or two representatives per key type c
 # ---------------------------------------------------------------------------------------------
 
 class Kind(object):
-    """Column layout of one table kind: key columns, one value column, the row-id column (always last)."""
+    """Column layout of one table kind (key columns, one value column, the row-id column - always last) plus
+    the SPELLING of the key / value arguments handed to petl: field names (canonical) or one of the
+    alternative accepted forms (field index, one-element list / tuple, list instead of tuple, compound key
+    mixing index and name).  The layout (kidx, vidx, ididx, keyhdr) is what the reference model uses."""
 
-    def __init__(self, name, hdr, kidx, vidx, numeric):
+    def __init__(self, name, hdr, kidx, vidx, numeric, base=None, kspell='name', vspell='name'):
         self.name = name
+        self.base = base or name
         self.hdr = hdr
         self.kidx = list(kidx)
         nkey = len(self.kidx)
         self.keyhdr = tuple(hdr[i] for i in self.kidx)
-        self.key = self.keyhdr[0] if nkey == 1 else self.keyhdr
         self.vidx = vidx
-        self.v = hdr[vidx]
+        self.vname = hdr[vidx]
         self.ididx = len(hdr) - 1
-        self.id = hdr[-1]
+        self.idname = hdr[-1]
         self.numeric = numeric
         self.single = nkey == 1
+        self.kspell, self.vspell = kspell, vspell
+        self.spelled = (kspell, vspell) != ('name', 'name')
+        names, idx = self.keyhdr, tuple(self.kidx)
+        if nkey == 1:
+            self.key = {'name': names[0], 'index': idx[0], 'list1': [names[0]], 'tuple1': (names[0],),
+                        'list1-index': [idx[0]]}[kspell]
+        else:
+            self.key = {'name': names, 'list': list(names), 'indices': idx, 'index+name': (idx[0], names[1]),
+                        'name+index': (names[0], idx[1])}[kspell]
+        self.keyargs = tuple(self.key) if isinstance(self.key, (list, tuple)) else (self.key,)
+        self.keyseq1 = isinstance(self.key, (list, tuple)) and len(self.key) == 1
+        self.keyhasindex = any(isinstance(x, int) for x in self.keyargs)
+        self.v = self.vname if vspell == 'name' else vidx
+        self.id = self.idname if vspell == 'name' else self.ididx
 
 
 KINDS = {
@@ -66,9 +92,34 @@ KINDS = {
     'kv4': Kind('kv4', ('k', 'v', 'id'), [0], 1, True),
     'kv6': Kind('kv6', ('k', 'v', 'id'), [0], 1, True),
     'vk': Kind('vk', ('v', 'k', 'id'), [1], 0, True),          # key is not the first column
+    'ek': Kind('ek', ('', 'v', 'id'), [0], 1, True),           # the key field is named '' (a falsy field name)
     'ck': Kind('ck', ('k1', 'k2', 'v', 'id'), [0, 1], 2, True),
     'mv': Kind('mv', ('k', 'v', 'id'), [0], 1, False),
 }
+
+# alternative spellings of the key / value arguments, on the small kinds (kv2: key is column 0 = index 0,
+# vk: key is column 1, ck: compound key)
+KSPELL_SINGLE = ('index', 'list1', 'tuple1', 'list1-index')
+KSPELL_COMPOUND = ('list', 'indices', 'index+name', 'name+index')
+SPELLED = {'kv2': [], 'vk': [], 'ck': []}       # base kind -> [(spelled kind name, in the quick tier?)]
+
+
+def _register_spellings():
+    for base in ('kv2', 'vk', 'ck'):
+        B = KINDS[base]
+        kspells = KSPELL_SINGLE if B.single else KSPELL_COMPOUND
+        for ks in ('name',) + kspells:
+            for vs in ('name', 'index'):
+                if (ks, vs) == ('name', 'name'):
+                    continue
+                name = '%s~%s~%s' % (base, ks, vs)
+                KINDS[name] = Kind(name, B.hdr, B.kidx, B.vidx, B.numeric, base=base, kspell=ks, vspell=vs)
+                # quick tier: every key spelling and every value spelling, index spellings tied together
+                quick = (vs == 'index') == (ks in ('name', 'index', 'list1-index', 'indices', 'index+name'))
+                SPELLED[base].append((name, quick))
+
+
+_register_spellings()
 
 _ALPHA = {}
 _SEED = 0
@@ -85,20 +136,25 @@ def _alphabets(seed):
             'kv4': [(k, v) for k in k4 for v in (i1, i2)],
             'kv6': [(k, v) for k in k6 for v in (i1, i2)],
             'vk': [(v, k) for k in k3 for v in (i1, i2)],
+            'ek': [(k, v) for k in (None, i1) for v in (i1, i2)],
             'ck': [(a, b, v) for a in (None, i1) for b in (None, i1) for v in (i1, i2)],
             'mv': [(k, v) for k in k3 for v in k3]}
 
 
+_TIER = 'quick'
+
+
 def setup(tier, seed):
-    global _SEED, _MISSING_ALT
+    global _SEED, _MISSING_ALT, _TIER
     _SEED = seed
+    _TIER = tier
     _ALPHA.clear()
     _ALPHA.update(_alphabets(seed))
     _MISSING_ALT = spaces.reps(seed)['i1']
 
 
 def _tables(kind, n, lo=0, hi=None):
-    rows = spaces.rotate(_ALPHA[kind], _SEED)
+    rows = spaces.rotate(_ALPHA[KINDS[kind].base], _SEED)
     for t in itertools.islice(itertools.product(rows, repeat=n), lo, hi):
         yield tuple(r + (i,) for i, r in enumerate(t))
 
@@ -149,11 +205,11 @@ def _aslist(vals):
 # call forms
 # ---------------------------------------------------------------------------------------------
 
-ALL = ('kv', 'kv2', 'kv4', 'kv6', 'vk', 'ck', 'mv')
-NUM = ('kv', 'kv2', 'kv4', 'kv6', 'vk', 'ck')
-MAIN = ('kv', 'kv2', 'kv4', 'kv6', 'vk', 'ck')
-SINGLE = ('kv', 'kv2', 'kv4', 'kv6', 'vk', 'mv')
-SINGLE_MAIN = ('kv', 'kv2', 'kv4', 'kv6', 'vk')
+ALL = ('kv', 'kv2', 'kv4', 'kv6', 'vk', 'ek', 'ck', 'mv')
+NUM = ('kv', 'kv2', 'kv4', 'kv6', 'vk', 'ek', 'ck')
+MAIN = ('kv', 'kv2', 'kv4', 'kv6', 'vk', 'ek', 'ck')
+SINGLE = ('kv', 'kv2', 'kv4', 'kv6', 'vk', 'ek', 'mv')
+SINGLE_MAIN = ('kv', 'kv2', 'kv4', 'kv6', 'vk', 'ek')
 
 
 class Form(object):
@@ -226,15 +282,15 @@ def _specs_petl(K, shape):
         d = OrderedDict() if shape == 'OrderedDict' else {}
         d['n'] = len
         if K.numeric:
-            d['s'] = K.v, sum
-        d['ids'] = K.id
-        d['pairs'] = (K.v, K.id), list
+            d['s'] = K.vname, sum
+        d['ids'] = K.idname
+        d['pairs'] = (K.vname, K.idname), list
         return d
     specs = [('n', len)]
     if K.numeric:
-        specs.append(('s', K.v, sum))
-    specs.append(('ids', K.id))
-    specs.append(('pairs', (K.v, K.id), list))
+        specs.append(('s', K.vname, sum))
+    specs.append(('ids', K.idname))
+    specs.append(('pairs', (K.vname, K.idname), list))
     return specs if shape == 'list' else tuple(specs)
 
 
@@ -331,7 +387,7 @@ def _merge_parts(h, rows, K, p):
         h2 = tuple(h[1:]) + tuple(h[:1])
         rows = [tuple(r[1:]) + tuple(r[:1]) for r in rows]
         return [(h2, rows[:c]), (h2, rows[c:])]
-    h2 = tuple('w' if f == K.v else f for f in h)      # second table carries the value under another name
+    h2 = tuple('w' if f == K.vname else f for f in h)      # second table carries the value under another name
     return [(h, rows[:c]), (h2, rows[c:])]
 
 
@@ -348,13 +404,13 @@ form('groupcountdistinctvalues', SINGLE, 'plain', 'table',
      lambda t, K, kw, p: etl.groupcountdistinctvalues(t, K.key, K.v),
      lambda h, rows, K, p: (K.keyhdr + ('value',), rg.countdistinct(rows, K.kidx, K.vidx)))
 form('valuecounts(key)', MAIN, 'plain', 'valuecounts',
-     lambda t, K, kw, p: etl.valuecounts(t, *K.keyhdr),
+     lambda t, K, kw, p: etl.valuecounts(t, *K.keyargs),
      lambda h, rows, K, p: (K.keyhdr + ('count', 'frequency'), rg.valuecounts(rows, K.kidx), K.kidx))
-form('valuecounts(v)', ('kv', 'kv2', 'kv4', 'vk', 'mv'), 'plain', 'valuecounts',
+form('valuecounts(v)', ('kv', 'kv2', 'kv4', 'vk', 'ek', 'mv'), 'plain', 'valuecounts',
      lambda t, K, kw, p: etl.valuecounts(t, K.v),
-     lambda h, rows, K, p: ((K.v, 'count', 'frequency'), rg.valuecounts(rows, [K.vidx]), [K.vidx]))
+     lambda h, rows, K, p: ((K.vname, 'count', 'frequency'), rg.valuecounts(rows, [K.vidx]), [K.vidx]))
 form('valuecounter(key)', MAIN, 'plain', 'counter',
-     lambda t, K, kw, p: etl.valuecounter(t, *K.keyhdr),
+     lambda t, K, kw, p: etl.valuecounter(t, *K.keyargs),
      lambda h, rows, K, p: rg.valuecounts(rows, K.kidx))
 
 # --- rowgroupby itself (input must be sorted by key) ----------------------------------------------------------
@@ -411,6 +467,45 @@ def row_ok(e, o):
     return len(e) == len(o) and all(cell_ok(x, y) for x, y in zip(e, o))
 
 
+def key_ok(e, o, K):
+    """Key cells equal; a key spelled as a one-element list / tuple may come back as the bare value or as a
+    1-tuple (the documentation does not say which)."""
+    if row_ok(e, o):
+        return True
+    return K.keyseq1 and len(e) == 1 and len(o) == 1 and cell_ok((e[0],), o[0])
+
+
+def hdr_ok(ehdr, ohdr, K):
+    """Output header as documented for field names; where the caller selected a field by index the header
+    cell may be that index instead of the field's name (not documented either way)."""
+    if tuple(ohdr) == tuple(ehdr):
+        return True
+    if not (K.keyhasindex or K.vspell == 'index') or len(ohdr) != len(ehdr):
+        return False
+    for e, o in zip(ehdr, ohdr):
+        if e == o and type(e) == type(o):
+            continue
+        if isinstance(o, int) and not isinstance(o, bool):
+            continue
+        return False
+    return True
+
+
+def applicable(f, K):
+    """Call form x argument spelling combinations that petl accepts (see RULE for the exclusions)."""
+    if K.base not in f.kinds:
+        return False
+    if not K.spelled:
+        return True
+    if f.name == 'aggregate([k],len)':
+        return False                                   # wraps the canonical key itself
+    if f.name in ('mergeduplicates', 'mergeduplicates(missing=i1)', 'merge') and K.keyhasindex:
+        return False                                   # output fields are computed from the key's field NAMES
+    if f.name == 'groupcountdistinctvalues' and isinstance(K.key, (list, tuple)):
+        return False                                   # documented for one key field
+    return True
+
+
 def judge(f, t, K, kw, p, obs=None):
     """Failures of one (form, table, strategy) point: list of (signature, expected, observed, message)."""
     if obs is None:
@@ -432,12 +527,16 @@ def judge(f, t, K, kw, p, obs=None):
         ehdr, erows = tuple(exp[0]), [tuple(r) for r in exp[1]]
         ohdr, orows = got
         shown = (ehdr, [tuple(repr(c) if isinstance(c, rg.ConflictOf) else norm(c) for c in r) for r in erows])
-        if ohdr != ehdr:
+        if f.srcrows:
+            restpart = lambda r: tuple(r)
+        else:
+            restpart = lambda r: tuple(r[nkey:])
+        if not hdr_ok(ehdr, ohdr, K):
             bad.append(('header', ehdr, ohdr, '%s: header %r, expected %r' % (f.name, ohdr, ehdr)))
-        if len(orows) != len(erows) or any(not row_ok(keypart(e), keypart(o)) for e, o in zip(erows, orows)):
+        if len(orows) != len(erows) or any(not key_ok(keypart(e), keypart(o), K) for e, o in zip(erows, orows)):
             bad.append(('group keys or their order differ', shown, got,
                         '%s: not one output group per distinct key in ascending key order' % f.name))
-        elif any(not row_ok(e, o) for e, o in zip(erows, orows)):
+        elif any(not row_ok(restpart(e), restpart(o)) for e, o in zip(erows, orows)):
             bad.append(('group contents differ', shown, got,
                         '%s: a group does not consist of exactly the rows with its key in input order' % f.name))
         if f.law and not bad:
@@ -457,7 +556,7 @@ def judge(f, t, K, kw, p, obs=None):
         ehdr, egroups = exp
         ohdr, orows = got
         shown = [(norm(k), [norm(r) for r in cands]) for k, g, cands in egroups]
-        if ohdr != tuple(ehdr):
+        if not hdr_ok(ehdr, ohdr, K):
             bad.append(('header', ehdr, ohdr, '%s: header' % f.name))
         if len(orows) != len(egroups) or any(not row_ok(rg.keycells(k, K.kidx), keypart(o))
                                              for (k, g, c), o in zip(egroups, orows)):
@@ -478,7 +577,7 @@ def judge(f, t, K, kw, p, obs=None):
     if f.mode == 'valuecounts':
         ehdr, ecounts, kidx = exp
         ohdr, orows = got
-        if ohdr != tuple(ehdr):
+        if not hdr_ok(ehdr, ohdr, K):
             bad.append(('header', ehdr, ohdr, '%s: header' % f.name))
         nk = len(kidx)
         shown = [(norm(k), c) for k, c in ecounts]
@@ -515,7 +614,7 @@ def judge(f, t, K, kw, p, obs=None):
 
     if f.mode == 'groups':
         shown = [(norm(k), norm(g)) for k, g in exp]
-        if len(got) != len(shown) or any(not cell_ok(e[0], o[0]) for e, o in zip(shown, got)):
+        if len(got) != len(shown) or any(not key_ok((e[0],), (o[0],), K) for e, o in zip(shown, got)):
             bad.append(('group keys or their order differ', shown, got, '%s: keys' % f.name))
         elif any(e[1] != o[1] for e, o in zip(shown, got)):
             bad.append(('group contents differ', shown, got, '%s: group members' % f.name))
@@ -531,9 +630,12 @@ STRATS = [('default', {}), ('buffersize', {'buffersize': 1}), ('buffersize', {'b
 PRESORTED = ('presorted', {'presorted': True})
 
 
-def strategies(f, keysorted):
+def strategies(f, keysorted, K=None):
     if f.strat == 'sorted':
-        return STRATS + ([PRESORTED] if keysorted else [])
+        strats = STRATS
+        if K is not None and K.spelled:             # argument-spelling blocks: fewer chunked sorts
+            strats = STRATS[:1] if _TIER == 'quick' else STRATS[:2]
+        return strats + ([PRESORTED] if keysorted else [])
     if f.strat == 'plain':
         return [('default', {})]
     if f.strat == 'presorted-only':
@@ -543,10 +645,20 @@ def strategies(f, keysorted):
     raise ValueError(f.strat)
 
 
+_SPELL_ROWS = {'quick': {'kv2': 3, 'vk': 2, 'ck': 2}, 'thorough': {'kv2': 3, 'vk': 3, 'ck': 2}}
+
+
 def _plan(tier):
     if tier == 'quick':
-        return [('kv', 0, 3), ('vk', 0, 3), ('ck', 0, 3), ('mv', 0, 3), ('kv2', 4, 4)]
-    return [('kv', 0, 3), ('kv4', 4, 4), ('vk', 0, 4), ('ck', 0, 4), ('mv', 0, 4), ('kv6', 0, 3)]
+        plan = [('kv', 0, 3), ('vk', 0, 3), ('ck', 0, 3), ('mv', 0, 3), ('kv2', 4, 4), ('ek', 0, 3)]
+    else:
+        plan = [('kv', 0, 3), ('kv4', 4, 4), ('vk', 0, 4), ('ck', 0, 4), ('mv', 0, 4), ('kv6', 0, 3), ('ek', 0, 4)]
+    # alternative spellings of the key / value arguments (quick: the tied subset, thorough: the full cross)
+    for base in ('kv2', 'vk', 'ck'):
+        for name, quick in SPELLED[base]:
+            if quick or tier != 'quick':
+                plan.append((name, 0, _SPELL_ROWS[tier][base]))
+    return plan
 
 
 _PER_ITEM = {0: 1, 1: 64, 2: 48, 3: 32, 4: 24}
@@ -559,8 +671,8 @@ def items(tier, seed):
         for kind, lo_n, hi_n in plan:
             if not (lo_n <= n <= hi_n):
                 continue
-            total = len(_ALPHA[kind]) ** n
-            step = _PER_ITEM[n] * (3 if kind == 'mv' else 1)
+            total = len(_ALPHA[KINDS[kind].base]) ** n
+            step = _PER_ITEM[n] * (3 if kind == 'mv' else 1) * (2 if KINDS[kind].spelled else 1)
             for lo in range(0, total, step):
                 out.append((kind, n, lo, min(total, lo + step)))
     return out
@@ -571,6 +683,9 @@ def bounds(tier, seed):
     for kind, n, lo, hi in items(tier, seed):
         tables[kind] = tables.get(kind, 0) + hi - lo
     return {'plan': [list(p) for p in _plan(tier)], 'tables_per_kind': tables, 'call_forms': len(FORMS),
+            'argument_spellings': {'single key': ['name'] + list(KSPELL_SINGLE),
+                                   'compound key': ['name'] + list(KSPELL_COMPOUND), 'value fields': ['name', 'index'],
+                                   'strategies on spelled kinds': 'default + presorted (quick), + buffersize=1 (thorough)'},
             'strategies': ['default', 'buffersize=1', 'buffersize=2', 'presorted=True (key-sorted tables only)'],
             'row_alphabets': {k: [repr(r) for r in v] for k, v in _ALPHA.items()}}
 
@@ -589,10 +704,26 @@ def case_of(f, K, t, sname, kw, p, sig):
             'table': [tuple(r) for r in t], 'sig': sig, 'missing_alt': _MISSING_ALT}
 
 
+def family(f):
+    if f.name.startswith('aggregate(') and ('of specs' in f.name or 'setitem' in f.name):
+        return 'aggregate(dict/list of specs)'
+    if f.name.startswith('mergeduplicates'):
+        return 'mergeduplicates'
+    return f.name
+
+
+def group_of(f, sname, K, sig):
+    """Violation group: call form x strategy class for the canonical spelling; for the alternative argument
+    spellings one group per (form family, spelling) - the strategy is then in the case only."""
+    if not K.spelled:
+        return '%s [%s] | %s' % (f.name, sname, sig)
+    return '%s [key as %s%s] | %s' % (family(f), K.kspell, ', value fields by index' if K.vspell == 'index' else '', sig)
+
+
 def run_item(item, acc):
     kind, n, lo, hi = item
     K = KINDS[kind]
-    forms = [f for f in FORMS.values() if kind in f.kinds]
+    forms = [f for f in FORMS.values() if applicable(f, K)]
     for rows in _tables(kind, n, lo, hi):
         t = (K.hdr,) + rows
         ks = key_sorted(rows, K)
@@ -601,7 +732,7 @@ def run_item(item, acc):
             if f.nonempty and not rows:
                 continue
             for p in f.params(n):
-                for sname, kw in strategies(f, ks):
+                for sname, kw in strategies(f, ks, K):
                     obs = observe(f, t, K, kw, p)
                     acc.states += 1
                     acc.transitions += 1
@@ -611,8 +742,10 @@ def run_item(item, acc):
                     if nt:
                         acc.nontrivial += 1
                         acc.counters['nt:' + f.name] += 1
+                    if not ks:
+                        acc.counters['unsorted-spelling:%s:key=%s,value=%s' % (K.base, K.kspell, K.vspell)] += 1
                     for sig, e, o, msg in judge(f, t, K, kw, p, obs):
-                        acc.violation('%s [%s] | %s' % (f.name, sname, sig),
+                        acc.violation(group_of(f, sname, K, sig),
                                       case_of(f, K, t, sname, kw, p, sig), e, o,
                                       msg + ' (strategy %r)' % (kw,))
                     if f.name == 'aggregate(list,id)' and sname == 'default':
@@ -643,6 +776,12 @@ def vacuity(cov, tier):
     for s in ('default', 'buffersize', 'presorted'):
         if not c.get('strategy:' + s):
             problems.append('strategy %s never ran' % s)
+    for base in ('kv2', 'vk', 'ck'):
+        for name, quick in SPELLED[base]:
+            K = KINDS[name]
+            if (quick or tier != 'quick') and not c.get('unsorted-spelling:%s:key=%s,value=%s'
+                                                        % (base, K.kspell, K.vspell)):
+                problems.append('no table with unsorted keys for spelling %s' % name)
     return problems
 
 
@@ -654,4 +793,21 @@ def _minmax_presorted(group, case, params):
     return case.get('form') in ('groupselectmin', 'groupselectmax') and bool(case.get('strategy', {}).get('presorted'))
 
 
-CLASSIFIERS = {'groupselectminmax_presorted': _minmax_presorted}
+def _one_element_key(group, case, params):
+    """Key given as a one-element list / tuple to the dict/list-of-specs form of aggregate, to mergeduplicates
+    or to merge (params['forms'] restricts the form families)."""
+    K = KINDS.get(case.get('kind'))
+    f = FORMS.get(case.get('form'))
+    if K is None or f is None or not K.keyseq1:
+        return False
+    return family(f) in (params.get('forms') or ['aggregate(dict/list of specs)', 'mergeduplicates', 'merge'])
+
+
+def _gcdv_index_key(group, case, params):
+    K = KINDS.get(case.get('kind'))
+    return K is not None and case.get('form') == 'groupcountdistinctvalues' and isinstance(K.key, int)
+
+
+CLASSIFIERS = {'groupselectminmax_presorted': _minmax_presorted,
+               'one_element_key': _one_element_key,
+               'groupcountdistinctvalues_index_key': _gcdv_index_key}
